@@ -24,6 +24,9 @@ class FnCtx:
     def __init__(self, module, cls: Optional[ClassInfo], fn):
         self.module = module
         self.cls = cls
+        if any(isinstance(n, ast.Match) for n in ast.walk(fn)):
+            # match statements are analysed as the if/elif chains they abbreviate (no helper is inlined here)
+            fn = Normalizer(lambda call, cls_: None, cls=cls, keep=()).run(fn)
         self.fn = fn
         try:
             self.cfg = CFG(fn)
@@ -241,13 +244,33 @@ class SCtx:
     def of_kind(self, kind: str) -> List[S.Event]:
         return [e for e in self.events if e.kind == kind]
 
+    @staticmethod
+    def _resolve_units(cs: list) -> list:
+        """unit resolution: a known disjunction `a or b` together with the known negation of `a` gives `b`"""
+        out = list(cs)
+        changed = True
+        while changed:
+            changed = False
+            known = set(out)
+            for c in list(out):
+                if c[:1] == ("bool",) and c[1] == "or":
+                    rest = [d for d in c[2] if S.norm_cond(False, d) not in known and S.neg(d) not in known]
+                    if len(rest) == 1 and len(c[2]) > 1:
+                        for x in S.conjuncts(rest[0]):
+                            if x not in known:
+                                out.append(x)
+                                changed = True
+                        out.remove(c)
+                        changed = True
+        return out
+
     def conds(self, nid: int) -> tuple:
         """normalised conditions (conjuncts) that hold whenever node nid executes (if/while tests only)"""
         if nid not in self._conds:
             out = []
             for pol, t in self.sym.guards(nid):
                 out.extend(S.conjuncts(S.norm_cond(pol, t)))
-            self._conds[nid] = tuple(out)
+            self._conds[nid] = tuple(dict.fromkeys(self._resolve_units(out)))
         return self._conds[nid]
 
     def guarded_values(self, expr, nid: int, depth: int = 5, excl=frozenset()) -> List[tuple]:
@@ -290,8 +313,15 @@ class SCtx:
             if n.kind in ("T", "F") and n.ast is not None and not isinstance(n.ast, (ast.For, ast.AsyncFor)):
                 t = self.sym.of(n.ast, n.of)
                 c = S.norm_cond(n.kind == "T", t)
-                if any(S.match(x, pat) is not None for x in S.conjuncts(c)):
+                own = S.conjuncts(c)
+                if any(S.match(x, pat) is not None for x in own):
                     out.append(n.id)
+                    continue
+                # what the branch adds to what is already known on the way to its test
+                if any(x[:1] == ("bool",) and x[1] == "or" for x in own):
+                    allc = self._resolve_units(list(self.conds(n.of)) + list(own))
+                    if any(S.match(x, pat) is not None for x in allc):
+                        out.append(n.id)
         return out
 
     def nids(self, evs) -> List[int]:
